@@ -341,6 +341,59 @@ func checkC16(c C16Case) *Violation {
 				return vio("user-chord-tones", "chord %d of the piece, %q, sounds %v above the root; its definition (parents first, then own attributes) gives %v%s", k, u, sortedInts(got), sortedInts(want), ctx)
 			}
 		}
+	case "attr-only":
+		// attributes given with --attr alone (no --chord file) are known to the info commands
+		files, args := c.Dict.filesAndArgs()
+		ctx := fmt.Sprintf("\nargs %v\n%s", args, dumpFiles(files))
+		list := Run{Argv: append([]string{"info", "attr", "list"}, args...), Files: files}.Exec()
+		if v := cleanOutcome(list); v != nil {
+			return v
+		}
+		if list.Exit != 0 {
+			return vio("attr-only-refused", "info attr list refuses a consistent --attr dictionary: %s%s", firstLines(list.Stderr, 2), ctx)
+		}
+		var l []map[string]any
+		if err := yaml.Unmarshal(list.Stdout, &l); err != nil {
+			return vio("attr-output", "%v", err)
+		}
+		for _, f := range c.Dict.AttrFiles {
+			for _, a := range f {
+				found := false
+				for _, m := range l {
+					if n, _ := m["name"].(string); n == a.Name {
+						found = true
+					}
+				}
+				if !found {
+					return vio("attr-only-missing", "user attribute %s given with --attr is not in `info attr list`%s", a.Name, ctx)
+				}
+			}
+		}
+		// last definition wins; describe the last user attribute on C
+		lastFile := c.Dict.AttrFiles[len(c.Dict.AttrFiles)-1]
+		a := lastFile[len(lastFile)-1]
+		want := a.IV.T().Semis()
+		for _, f := range c.Dict.AttrFiles {
+			for _, x := range f {
+				if x.Name == a.Name {
+					want = x.IV.T().Semis()
+				}
+			}
+		}
+		d := Run{Argv: append([]string{"info", "attr", "describe", "-t", a.Name, "-r", "C"}, args...), Files: files}.Exec()
+		if v := cleanOutcome(d); v != nil {
+			return v
+		}
+		if d.Exit != 0 {
+			return vio("attr-only-unknown", "info attr describe -t %s fails although --attr defines it: %s%s", a.Name, firstLines(d.Stderr, 2), ctx)
+		}
+		var m map[string]any
+		if err := yaml.Unmarshal(d.Stdout, &m); err != nil {
+			return vio("attr-output", "%v", err)
+		}
+		if got, _ := m["semitone"].(int); got != want {
+			return vio("attr-only-size", "user attribute %s measures %d semitones, its definition says %d%s", a.Name, got, want, ctx)
+		}
 	case "bad":
 		files, args := c.Dict.filesAndArgs()
 		var run Run
@@ -622,6 +675,15 @@ func TestC16(t *testing.T) {
 		r.Case("U"+fmt.Sprint(seq)+dumpFiles(files), inherited, cls...)
 		r.Sample(map[string]any{"plays": seq, "files": files})
 		r.Check(t, checkC16(c), "c16", c)
+
+		// attributes alone: --attr without any --chord file
+		if len(d.AttrFiles) > 0 && coin(t, "attr-only", 40) {
+			ad := Dict{AttrFiles: d.AttrFiles}
+			ac := C16Case{Kind: "attr-only", Dict: &ad}
+			af, _ := ad.filesAndArgs()
+			r.Case("A"+dumpFiles(af), true, "attr-only-dictionary")
+			r.Check(t, checkC16(ac), "c16", ac)
+		}
 
 		// (c) one inconsistency injected into this valid dictionary
 		bad := rapid.SampledFrom(bads).Draw(t, "bad")
